@@ -70,6 +70,7 @@ int vnaproperty_import_yaml_from_string(vnaproperty_t **rootptr,
 		"%s error: empty YAML document", vyml.vyml_filename);
 	goto error;
     }
+    (void)vnaproperty_delete(rootptr, ".");	/* replace any existing content */
     if (_vnaproperty_yaml_import(&vyml, rootptr, (void *)root) == -1) {
 	goto error;
     }
